@@ -9,6 +9,9 @@ package pos
 //@ spec tsum(w []Weight, n int) int = ite(n <= 0, 0, tsum(w, n-1) + w[n-1])
 //@ spec wsum(a []bool, w []Weight, n int) int = ite(n <= 0, 0, wsum(a, w, n-1) + ite(a[n-1], w[n-1], 0))
 //@
+//@ lemma tsum_frame(w []Weight, n int, i int, v Weight) by induction(n)
+//@   requires i >= n
+//@   ensures  tsum(w[i := v], n) == tsum(w, n)
 //@ lemma wsum_frame(a []bool, w []Weight, n int, i int, v bool) by induction(n)
 //@   requires i >= n
 //@   ensures  wsum(a[i := v], w, n) == wsum(a, w, n)
@@ -75,6 +78,76 @@ package pos
 //@ func (*WeightCounter).Sum
 //@   requires s != nil
 //@   ensures  result == s.sum
+//@ // ---- construction of validator sets (establishes valid(vv)); C12 ----
+//@ spec vless(a validator, b validator) bool = a.Weight > b.Weight || (a.Weight == b.Weight && a.ID < b.ID)
+//@ func (validators).Less
+//@   requires 0 <= i && i < len(vv) && 0 <= j && j < len(vv)
+//@   ensures  result == vless(vv[i], vv[j])
+//@ func (validators).Len
+//@   ensures  result == len(vv)
+//@ lemma vless_irreflexive(a validator)
+//@   ensures  !vless(a, a)
+//@ lemma vless_transitive(a validator, b validator, c validator)
+//@   requires vless(a, b) && vless(b, c)
+//@   ensures  vless(a, c)
+//@ lemma vless_total(a validator, b validator)
+//@   requires a.ID != b.ID
+//@   ensures  vless(a, b) || vless(b, a)
+//@
+//@ // sortedOK(arr, m): arr lists exactly the (ID, weight) pairs of map m, each once, in canonical order
+//@ spec pairsOf(arr validators, m map[idx.ValidatorID]Weight) bool = len(arr) == len(m) && forall(j, 0, len(arr), has(m, arr[j].ID) && m[arr[j].ID] == arr[j].Weight) && forall(i, 0, len(arr), forall(j, 0, len(arr), i != j ==> arr[i].ID != arr[j].ID))
+//@ spec canonical(arr validators) bool = forall(i, 0, len(arr) - 1, !vless(arr[i + 1], arr[i]))
+//@
+//@ func (*Validators).sortedArray
+//@   requires vv != nil
+//@   modifies nsort
+//@   ensures  fresh(result) && pairsOf(result, vv.values) && canonical(result)
+//@   loop 1 modifies array[*]
+//@   loop 1 invariant arrof(array) == arrof(atentry(array)) || arrof(array) >= _loopalloc
+//@   loop 1 invariant len(array) == _k && 0 <= _k && _k <= len(vv.values) && arrof(array) >= old(_alloc)
+//@   loop 1 invariant forall(j, 0, _k, _visited[array[j].ID] && has(vv.values, array[j].ID) && vv.values[array[j].ID] == array[j].Weight)
+//@   loop 1 invariant forall(i, 0, _k, forall(j, 0, _k, i != j ==> array[i].ID != array[j].ID))
+//@
+//@ spec cacheOK(c cache, n int) bool = len(c.weights) == n && len(c.ids) == n && c.totalWeight == tsum(c.weights, n) && c.totalWeight <= MaxW && forall(id idx.ValidatorID, has(c.indexes, id) ==> c.indexes[id] < n)
+//@
+//@ func (*Validators).calcCaches
+//@   maypanic
+//@   requires vv != nil && len(vv.values) <= MaxW
+//@   modifies nsort
+//@   ensures  cacheOK(result, len(vv.values))
+//@   ensures  [order] forall(i, 0, len(vv.values), has(vv.values, result.ids[i]) && vv.values[result.ids[i]] == result.weights[i] && result.indexes[result.ids[i]] == i)
+//@   ensures  [canonical] forall(i, 0, len(vv.values) - 1, result.weights[i] > result.weights[i+1] || (result.weights[i] == result.weights[i+1] && result.ids[i] < result.ids[i+1]))
+//@   loop 1 modifies cache.weights[*], cache.ids[*], cache.indexes[*], cache.totalWeight
+//@   loop 1 invariant 0 <= _k && _k <= len(_range) && len(cache.weights) == len(vv.values) && len(cache.ids) == len(vv.values) && cache.indexes != nil
+//@   loop 1 invariant cache.indexes == atentry(cache.indexes) && cache.weights == atentry(cache.weights) && cache.ids == atentry(cache.ids)
+//@   loop 1 invariant cache.totalWeight == tsum(cache.weights, _k) && cache.totalWeight <= 4294967295
+//@   loop 1 hint use tsum_frame(iterold(cache.weights), _k - 1, _k - 1, cache.weights[_k - 1])
+//@   loop 1 invariant forall(id idx.ValidatorID, has(cache.indexes, id) ==> cache.indexes[id] < _k)
+//@   loop 1 invariant forall(i, 0, _k, cache.ids[i] == _range[i].ID && cache.weights[i] == _range[i].Weight && cache.indexes[_range[i].ID] == i && has(cache.indexes, _range[i].ID))
+//@
+//@ func (ValidatorsBuilder).Set
+//@   requires vv != nil
+//@   modifies vv[id]
+//@   ensures  weight == 0 ==> !has(vv, id)
+//@   ensures  weight != 0 ==> has(vv, id) && vv[id] == weight
+//@   ensures  len(vv) <= old(len(vv)) + 1
+//@
+//@ func newValidators
+//@   maypanic
+//@   requires len(values) <= MaxW
+//@   modifies nsort
+//@   ensures  fresh(result) && valid(result)
+//@   ensures  forall(id idx.ValidatorID, has(result.values, id) == (has(values, id) && values[id] != 0)) && forall(id idx.ValidatorID, has(result.values, id) ==> result.values[id] == values[id])
+//@   loop 1 modifies valuesCopy[*]
+//@   loop 1 invariant valuesCopy != nil && len(valuesCopy) <= _k && _k <= len(values)
+//@   loop 1 invariant forall(id idx.ValidatorID, has(valuesCopy, id) == (_visited[id] && has(values, id) && values[id] != 0)) && forall(id idx.ValidatorID, has(valuesCopy, id) ==> valuesCopy[id] == values[id])
+//@
+//@ func (ValidatorsBuilder).Build
+//@   maypanic
+//@   requires len(vv) <= MaxW
+//@   modifies nsort
+//@   ensures  fresh(result) && valid(result)
+//@
 //@ func newWeightCounter
 //@   requires valid(vv)
 //@   ensures  fresh(result) && cinv(result) && result.sum == 0
